@@ -23,6 +23,9 @@ func c11Gen(r *gen.Rng, tier string, idx int) interface{} {
 	if r.Chance(1, 2) {
 		o.MaxGroup = r.Range(1, 9)
 	}
+	if r.Chance(1, 6) {
+		return &C11Case{F: gen.RandomGroupFormula(r, true)}
+	}
 	return &C11Case{F: gen.RandomFormula(r, o, 0, false)}
 }
 
